@@ -26,8 +26,10 @@ from it by at most the 4-decimal rounding of the room, `dzFill · 1000 / 20000` 
 Premise records used below (defined in `Proofs/WaterDay.lean`, `Proofs/Drainage.lean`):
 `DrainPre x` = `Cell.Inv x` (`th_dry ≤ th ≤ th_s`, `th_fc ≤ th_fc_adj ≤ th_s`, well-formed
 compartment) ∧ `0 ≤ dzsum` ∧ `th_fc < th_s`;
-`DayPre F W cells S` = `ExpLaws F` (`1 ≤ exp x` for `x ≥ 0`) ∧ `∀ x ∈ cells, DrainPre x` ∧
-`0 ≤ S.pond` ∧ (net-irrigation mode → `0 ≤ NetIrrSMT ≤ 100`).
+`DayPre F W cells S` = `ExpLaws F` (`1 ≤ exp x` for `x ≥ 0`) ∧ `PowSqLaw F` (`x ** 2 = x · x`,
+`Proofs/PowSq.lean`: the Python computes the adjusted field capacity above a water table and the
+SCS runoff with `** 2`, i.e. C `pow`, and the model writes `F.pow · 2` there) ∧
+`∀ x ∈ cells, DrainPre x` ∧ `0 ≤ S.pond` ∧ (net-irrigation mode → `0 ≤ NetIrrSMT ≤ 100`).
 
 Not covered here: carry-over of `th`/ponding between days (`update_time`,
 `reset_initial_conditions`) — the day function takes the state as an argument.
